@@ -14,9 +14,11 @@ Local Open Scope list_scope.
 (* the edit log: indices (child-token positions in the ORIGINAL child list) removed so far, elements appended so far *)
 Definition edits_empty : list nat * list node := ([], []).
 (* START.RemoveChild(E) for the element E the handler was called for (identified by its path from START) *)
+(* non-nil exactly when E's parent is START (GenPreludeT.parent_of: a direct child, which — being visited only once — has
+   not been removed before) *)
 Definition edit_remove (path : list nat) (ed : list nat * list node) : option (list nat * list node) :=
   match path with
-  | [i] => if existsb (Nat.eqb i) (fst ed) then None else Some (i :: fst ed, snd ed)
+  | [i] => Some (i :: fst ed, snd ed)
   | _ => None
   end.
 (* START.AddChild(x) *)
